@@ -14,7 +14,10 @@ from .absint import is_agg, agg_field
 
 
 def modular_inline(g, t):
-    return g.get("kind") == "Closure"
+    """modular analysis: follow closures, and local From/Into conversions (they only re-wrap the error)"""
+    if g.get("kind") == "Closure":
+        return True
+    return g.get("impl_trait") in ("std::convert::From", "std::convert::Into") and len(g.get("blocks", [])) <= 12
 
 
 def site_effects(path):
